@@ -105,7 +105,7 @@ def register(db):
                 ("tag-is-pending", "self.pending_tag == clark_split(qname)"),
                 ("tag-namespace-has-a-prefix", "implies(clark_split(qname)[0] is not None, " + BOUND.format(u="clark_split(qname)[0]") + ")"),
             ] + ([("parent-scope-object-untouched-by-the-child", "same_dict(self.ns_context[-2], old(self.ns_context[-1]))")] if depth == 1 else []),
-            raises={},
+            raises={}, modifies=["self.ns_map", "self.pending_tag", "self.ns_context"],
             properties=P,
         ))
     # ------------------------------------------------------------------ flush_start
@@ -134,6 +134,7 @@ def register(db):
                 "exists('str', lambda k: k != '' and k in self.ns_map and self.ns_map[k] == key_at(self.attrs, j)[0])))",
                 "forall('str|None', lambda k: implies(k in old(self.ns_map), k in self.ns_map and self.ns_map[k] == old(self.ns_map)[k]))",
             ], header="self.attrs", modifies=["self.ns_map"])],
+            modifies=["self.ns_map", "self.pending_tag", "self.attrs", "self.in_tail"],
             properties=P,
         ))
     db.add(Contract(
